@@ -309,13 +309,14 @@ func VerifC18_Reach() {
 	vs.Reach("signs")
 	vs.Reach("signs:" + id)
 	tr := vs.Choice("transport", rpc.C18NTransports)
+	pre := vs.Choice("preexisting", 2) == 1 // fresh namespace / namespace already has a service (merge branch)
 	var fl rpc.C18Flags
 	fl[rpc.C18InProc] = vs.Bool("allow_sign_inProc")
 	fl[rpc.C18IPC] = vs.Bool("allow_sign_ipc")
 	fl[rpc.C18HTTP] = vs.Bool("allow_sign_http")
 	fl[rpc.C18WS] = vs.Bool("allow_sign_ws")
 	fl[4] = vs.Bool("allow_all_rpc_signing")
-	offered := rpc.VerifC18GateRegistered(tr, fl, false, c.NS, c.Rcvr(f), c.Methods, c.Name)
+	offered := rpc.VerifC18GateRegistered(tr, fl, pre, c.NS, c.Rcvr(f), c.Methods, c.Name)
 	vs.Observe("offered", offered)
 	if offered {
 		vs.Reach("offered")
